@@ -384,6 +384,12 @@ Proof.
     rewrite IH; auto. intros Hin. apply H; cbn; auto.
 Qed.
 
+Lemma index_of_lt0 : forall x l, In x l -> index_of x l < length l.
+Proof.
+  induction l as [|a l IH]; intros H; [destruct H|]. cbn.
+  destruct (Nat.eqb_spec x a); [lia|]. destruct H; [congruence|]. apply IH in H. lia.
+Qed.
+
 Lemma nth_index_of : forall x l d, In x l -> nth (index_of x l) l d = x.
 Proof.
   induction l as [|a l IH]; intros d H; [destruct H|]. cbn.
@@ -415,7 +421,6 @@ Qed.
 Section Forest.
   Variables (n : nat) (par ch : nat -> list nat) (rts : list nat) (rk : nat -> nat).
   Hypothesis Hrk : ranked par n rk.
-  Hypothesis Hrkn : forall v, rk v < n.
   Hypothesis Hch : forall c v, In c (ch v) <-> In v (par c).
   Hypothesis Hone : forall c, length (par c) <= 1.
   Hypothesis Hnd : forall v, NoDup (ch v).
@@ -438,8 +443,7 @@ Section Forest.
     intros v. unfold T.
     change (preorder (S n) ch v) with (v :: flat_map (preorder n ch) (ch v)). f_equal.
     rewrite !flat_map_concat_map. f_equal. apply map_ext_in. intros c Hc.
-    apply preorder_fuel; auto.
-    apply Hch in Hc. destruct (Hrk c v Hc). pose proof (Hrkn v). lia.
+    apply Hch in Hc. destruct (Hrk c v Hc). apply preorder_fuel; lia.
   Qed.
 
   Lemma rk_ind : forall P : nat -> Prop,
@@ -605,12 +609,61 @@ Section Forest.
 
   Theorem forest_count : forall y, tout_of y - tin_of y + 1 = length (T y).
   Proof. intros y. unfold tin_of, tout_of. pose proof (T_nonempty y). lia. Qed.
+
+  Lemma forest_reach_lt : forall x y, reach par x y -> y < n -> x < n.
+  Proof.
+    intros x y H. induction H as [|x q y Hin _ IH]; auto. intros _. apply Hlt in Hin. tauto.
+  Qed.
+
+  Lemma order_lt : forall x, In x order -> x < n.
+  Proof.
+    intros x Hx. unfold order in Hx. apply in_flat_map in Hx as [r [Hr Hx]].
+    apply in_T_reach in Hx. apply Hrts in Hr as [Hr _]. eapply forest_reach_lt; eauto.
+  Qed.
+
+  Lemma order_length : length order = n.
+  Proof.
+    rewrite <- (seq_length n 0). apply Nat.le_antisymm; apply NoDup_incl_length.
+    - apply NoDup_order.
+    - intros x Hx. apply in_seq. apply order_lt in Hx. lia.
+    - apply seq_NoDup.
+    - intros x Hx. apply in_seq in Hx. apply in_order. lia.
+  Qed.
+
+  Lemma tin_lt : forall v, v < n -> tin_of v < n.
+  Proof.
+    intros v Hv. unfold tin_of. rewrite <- order_length. apply index_of_lt0. apply in_order; auto.
+  Qed.
+
+  Lemma tin_inj : forall i j, i < n -> j < n -> tin_of i = tin_of j -> i = j.
+  Proof.
+    intros i j Hi Hj E. unfold tin_of in E.
+    rewrite <- (nth_index_of i order 0) by (apply in_order; auto).
+    rewrite <- (nth_index_of j order 0) by (apply in_order; auto). rewrite E. reflexivity.
+  Qed.
+
+  Lemma tin_nth : forall r, r < n -> tin_of (nth r order 0) = r.
+  Proof.
+    intros r Hr. unfold tin_of. rewrite <- order_length in Hr. pose proof NoDup_order as Hnd'.
+    revert r Hr. induction order as [|a l IH]; intros r Hr; [cbn in Hr; lia|].
+    inversion Hnd'; subst. destruct r as [|r]; cbn [nth index_of].
+    - rewrite Nat.eqb_refl. reflexivity.
+    - cbn in Hr. destruct (Nat.eqb_spec (nth r l 0) a) as [E|_].
+      + exfalso. apply H1. rewrite <- E. apply nth_In. lia.
+      + rewrite IH; auto. lia.
+  Qed.
+
+  Lemma tout_lt : forall v, v < n -> tout_of v < n.
+  Proof.
+    intros v Hv. unfold tout_of. destruct (order_split v Hv) as [A [B E]].
+    rewrite (pos_of v A B E). pose proof order_length as Hl. rewrite E, !app_length in Hl.
+    pose proof (T_nonempty v). lia.
+  Qed.
 End Forest.
 
 (* ---- the model's nested-set index on a well-formed forest ---- *)
 Record wf_poset (p : poset) (rk : nat -> nat) : Prop := {
   wf_rk : ranked (parents p) (pn p) rk;
-  wf_rkn : forall v, rk v < pn p;
   wf_ch : forall c v, In c (children p v) <-> In v (parents p c);
   wf_nd : forall v, NoDup (children p v);
   wf_lt : forall c v, In v (parents p c) -> c < pn p /\ v < pn p
@@ -759,4 +812,345 @@ Proof.
       rewrite E. cbn [fold_vals fold_right]. f_equal.
       unfold vals. rewrite (nth_indep _ RNull (rv_of (nth 0 m None) (identity o))) by (rewrite map_length; lia).
       rewrite (map_nth (fun v => rv_of (nth v m None) (identity o))). reflexivity.
+Qed.
+
+(* ================= 6. Poset::from_edges (Kahn) yields a well-formed poset ================= *)
+Lemma memn_In : forall x l, memn x l = true <-> In x l.
+Proof.
+  intros x l. unfold memn. rewrite existsb_exists. split.
+  - intros [y [H1 H2]]. apply Nat.eqb_eq in H2. subst; auto.
+  - intros H. exists x; split; auto. apply Nat.eqb_refl.
+Qed.
+
+Lemma memn_false : forall x l, memn x l = false <-> ~ In x l.
+Proof. intros x l. rewrite <- memn_In. destruct (memn x l); split; intros; congruence. Qed.
+
+Lemma filter_remove_one : forall (f : nat -> bool) u l, NoDup l ->
+  length (filter (fun c => f c && negb (c =? u)) l) + (if f u && memn u l then 1 else 0)
+  = length (filter f l).
+Proof.
+  intros f u. induction l as [|a l IH]; intros Hnd.
+  - cbn. rewrite andb_false_r. reflexivity.
+  - inversion Hnd as [|? ? Ha Hl]; subst. specialize (IH Hl). cbn [filter].
+    destruct (Nat.eqb_spec a u) as [->|Hne].
+    + assert (Hm : memn u l = false) by (apply memn_false; auto).
+      rewrite Hm, andb_false_r in IH. rewrite andb_false_r.
+      replace (memn u (u :: l)) with true by (symmetry; apply memn_In; cbn; auto).
+      rewrite andb_true_r. destruct (f u); cbn [length]; lia.
+    + replace (memn u (a :: l)) with (memn u l).
+      2:{ unfold memn. cbn [existsb]. destruct (Nat.eqb_spec u a); [congruence|reflexivity]. }
+      rewrite andb_true_r. destruct (f a); cbn [length]; lia.
+Qed.
+
+Definition kstep (st : list nat * list nat) (p : nat) : list nat * list nat :=
+  let '(ig, q) := st in
+  let d := nth p ig 0 - 1 in
+  (upd ig p d, if d =? 0 then q ++ [p] else q).
+
+Lemma kfold : forall ps ig q, NoDup ps -> (forall p, In p ps -> p < length ig) ->
+  (forall x, nth x (fst (fold_left kstep ps (ig, q))) 0 = if memn x ps then nth x ig 0 - 1 else nth x ig 0) /\
+  snd (fold_left kstep ps (ig, q)) = q ++ filter (fun p => nth p ig 0 - 1 =? 0) ps /\
+  length (fst (fold_left kstep ps (ig, q))) = length ig.
+Proof.
+  induction ps as [|p ps IH]; intros ig q Hnd Hlt.
+  - cbn. rewrite app_nil_r. auto.
+  - inversion Hnd as [|? ? Hp Hps]; subst. cbn [fold_left kstep].
+    destruct (IH (upd ig p (nth p ig 0 - 1)) (if nth p ig 0 - 1 =? 0 then q ++ [p] else q) Hps) as [I1 [I2 I3]].
+    { intros p' Hp'. rewrite upd_length. apply Hlt; cbn; auto. }
+    assert (Hpl : p < length ig) by (apply Hlt; cbn; auto).
+    split; [|split].
+    + intros x. rewrite I1. rewrite nth_upd by auto.
+      unfold memn at 2. cbn [existsb]. fold (memn x ps).
+      destruct (Nat.eqb_spec x p) as [->|Hne].
+      * replace (memn p ps) with false by (symmetry; apply memn_false; auto). reflexivity.
+      * reflexivity.
+    + rewrite I2. cbn [filter].
+      assert (E : filter (fun p0 => nth p0 (upd ig p (nth p ig 0 - 1)) 0 - 1 =? 0) ps
+                  = filter (fun p0 => nth p0 ig 0 - 1 =? 0) ps).
+      { apply filter_ext_in. intros a Ha. rewrite nth_upd_other; auto. intros ->; auto. }
+      rewrite E. destruct (nth p ig 0 - 1 =? 0); [rewrite <- app_assoc|]; reflexivity.
+    + rewrite I3, upd_length. reflexivity.
+Qed.
+
+Section Kahn.
+  Variables (n : nat) (par : list (list nat)).
+  Hypothesis Hpar_nd : forall c, NoDup (nth c par []).
+  Hypothesis Hpar_lt : forall c q, In q (nth c par []) -> q < n.
+  Let P c := nth c par [].
+
+  Definition pending (q : nat) (O : list nat) : list nat :=
+    filter (fun c => memn q (P c) && negb (memn c O)) (seq 0 n).
+
+  Definition good (O : list nat) : Prop :=
+    forall l1 q l2, O = l1 ++ q :: l2 -> forall c, c < n -> In q (P c) -> In c l2.
+
+  Record kinv (ig Q O : list nat) : Prop := {
+    k_len : length ig = n;
+    k_A : forall q, q < n -> nth q ig 0 = length (pending q O);
+    k_B : forall q, In q Q -> q < n /\ pending q O = [] /\ ~ In q O;
+    k_C : NoDup Q;
+    k_D : good O;
+    k_nd : NoDup O;
+    k_lt : forall q, In q O -> q < n }.
+
+  Lemma in_pending : forall q O u, In u (pending q O) <-> (u < n /\ In q (P u) /\ ~ In u O).
+  Proof.
+    intros q O u. unfold pending. rewrite filter_In, in_seq, andb_true_iff, negb_true_iff, memn_In, memn_false.
+    intuition lia.
+  Qed.
+
+  Lemma pending_cons : forall q u O, u < n -> ~ In u O ->
+    length (pending q (u :: O)) = length (pending q O) - (if memn q (P u) then 1 else 0).
+  Proof.
+    intros q u O Hu HuO.
+    pose proof (filter_remove_one (fun c => memn q (P c) && negb (memn c O)) u (seq 0 n) (seq_NoDup n 0)) as H.
+    assert (E : pending q (u :: O) = filter (fun c => (memn q (P c) && negb (memn c O)) && negb (c =? u)) (seq 0 n)).
+    { unfold pending. apply filter_ext. intros c. unfold memn at 2. cbn [existsb]. fold (memn c O).
+      destruct (c =? u), (memn q (P c)), (memn c O); reflexivity. }
+    rewrite E. fold (pending q O) in H.
+    replace (memn u (seq 0 n)) with true in H by (symmetry; apply memn_In, in_seq; lia).
+    replace (memn u O) with false in H by (symmetry; apply memn_false; auto).
+    cbn [negb] in H. rewrite !andb_true_r in H. destruct (memn q (P u)); lia.
+  Qed.
+
+  Lemma kinv_step : forall ig u Q O, kinv ig (u :: Q) O ->
+    kinv (fst (fold_left kstep (P u) (ig, Q))) (snd (fold_left kstep (P u) (ig, Q))) (u :: O).
+  Proof.
+    intros ig u Q O K. destruct K as [Klen KA KB KC KD Knd Klt].
+    destruct (KB u) as [Hu [Hpu HuO]]; [cbn; auto|].
+    inversion KC as [|? ? HuQ HQ]; subst.
+    destruct (kfold (P u) ig Q (Hpar_nd u)) as [F1 [F2 F3]].
+    { intros p Hp. rewrite Klen. eapply Hpar_lt; eauto. }
+    assert (Hpend : forall x, In x (P u) -> In u (pending x O)).
+    { intros x Hx. apply in_pending. auto. }
+    assert (HA' : forall q, q < n -> nth q (fst (fold_left kstep (P u) (ig, Q))) 0 = length (pending q (u :: O))).
+    { intros q Hq. rewrite F1, pending_cons, KA by auto. destruct (memn q (P u)); lia. }
+    constructor.
+    - rewrite F3. auto.
+    - exact HA'.
+    - intros q Hq. rewrite F2 in Hq. apply in_app_or in Hq as [Hq|Hq].
+      + destruct (KB q) as [H1 [H2 H3]]; [cbn; auto|]. split; auto. split.
+        * apply length_zero_iff_nil. rewrite pending_cons, H2 by auto. reflexivity.
+        * intros [->|H]; auto.
+      + apply filter_In in Hq as [Hq1 Hq2]. apply Nat.eqb_eq in Hq2.
+        assert (Hqn : q < n) by (eapply Hpar_lt; eauto). split; auto. split.
+        * apply length_zero_iff_nil. rewrite <- HA', F1 by auto.
+          replace (memn q (P u)) with true by (symmetry; apply memn_In; auto). auto.
+        * intros [<-|H].
+          -- specialize (Hpend u Hq1). rewrite Hpu in Hpend. destruct Hpend.
+          -- destruct (in_split _ _ H) as [l1 [l2 E]].
+             assert (In u l2) by (eapply KD; eauto). apply HuO. rewrite E. apply in_or_app; right; cbn; auto.
+    - rewrite F2. apply NoDup_app_intro; auto.
+      + apply NoDup_filter. apply Hpar_nd.
+      + intros x Hx Hx2. apply filter_In in Hx2 as [Hx2 _].
+        destruct (KB x) as [_ [H2 _]]; [cbn; auto|]. specialize (Hpend x Hx2). rewrite H2 in Hpend. destruct Hpend.
+    - intros l1 q l2 E c Hc Hqc. destruct l1 as [|a l1]; cbn in E; inversion E; subst.
+      + destruct (in_dec Nat.eq_dec c l2) as [|Hn]; auto. exfalso.
+        assert (In c (pending q l2)) by (apply in_pending; auto). rewrite Hpu in H. destruct H.
+      + eapply KD; eauto.
+    - constructor; auto.
+    - intros q [<-|H]; auto.
+  Qed.
+
+  Lemma kahn_inv : forall fuel ig Q O, kinv ig Q O ->
+    exists O', kahn fuel par ig Q O = rev O' /\ good O' /\ NoDup O' /\ (forall q, In q O' -> q < n).
+  Proof.
+    induction fuel as [|f IH]; intros ig Q O K.
+    - exists O. cbn. destruct K; auto.
+    - destruct Q as [|u Q].
+      + exists O. cbn. destruct K; auto.
+      + cbn [kahn]. pose proof (kinv_step ig u Q O K) as K'.
+        change (fold_left _ (nth u par []) (ig, Q)) with (fold_left kstep (P u) (ig, Q)).
+        destruct (fold_left kstep (P u) (ig, Q)) as [ig' Q']. apply IH. exact K'.
+  Qed.
+End Kahn.
+
+(* ---- the arrays from_edges builds ---- *)
+Definition eeq (e f : nat * nat) : bool := Nat.eqb (fst e) (fst f) && Nat.eqb (snd e) (snd f).
+
+Lemma edge_mem_In : forall e l, edge_mem e l = true <-> In e l.
+Proof.
+  intros [a b] l. unfold edge_mem. rewrite existsb_exists. split.
+  - intros [[c d] [H1 H2]]. cbn in H2. apply andb_true_iff in H2 as [H2 H3].
+    apply Nat.eqb_eq in H2, H3. subst; auto.
+  - intros H. exists (a, b); split; auto. cbn. rewrite !Nat.eqb_refl. reflexivity.
+Qed.
+
+Lemma dedup_spec : forall l seen,
+  NoDup (dedup_edges l seen) /\
+  forall e, In e (dedup_edges l seen) <-> (In e l /\ ~ In e seen).
+Proof.
+  induction l as [|a l IH]; intros seen; cbn [dedup_edges].
+  - split; [constructor|]. intros e; cbn; tauto.
+  - destruct (edge_mem a seen) eqn:E.
+    + apply edge_mem_In in E. destruct (IH seen) as [I1 I2]. split; auto.
+      intros e. rewrite I2. cbn. split; [tauto|]. intros [[Hae|H] Hn]; [subst; tauto|tauto].
+    + assert (Ha : ~ In a seen) by (intros H; apply edge_mem_In in H; congruence).
+      destruct (IH (a :: seen)) as [I1 I2]. split.
+      * constructor; auto. rewrite I2. cbn. tauto.
+      * intros e. cbn. rewrite I2. cbn.
+        destruct (edge_mem e [a]) eqn:Ea.
+        -- apply edge_mem_In in Ea. cbn in Ea. destruct Ea as [->|[]]. tauto.
+        -- assert (a <> e) by (intros ->; assert (In e [e]) by (cbn; auto); apply edge_mem_In in H; congruence).
+           tauto.
+Qed.
+
+Lemma push_fold : forall (key val : nat * nat -> nat) es acc,
+  (forall e, In e es -> key e < length acc) ->
+  length (fold_left (fun a e => push_at a (key e) (val e)) es acc) = length acc /\
+  forall i, nth i (fold_left (fun a e => push_at a (key e) (val e)) es acc) [] =
+            nth i acc [] ++ map val (filter (fun e => key e =? i) es).
+Proof.
+  intros key val. induction es as [|e es IH]; intros acc Hk; cbn [fold_left].
+  - split; auto. intros i. cbn. rewrite app_nil_r. reflexivity.
+  - assert (Hl : length (push_at acc (key e) (val e)) = length acc) by (unfold push_at; apply upd_length).
+    destruct (IH (push_at acc (key e) (val e))) as [I1 I2].
+    { intros e' He'. rewrite Hl. apply Hk; cbn; auto. }
+    split; [congruence|]. intros i. rewrite I2. cbn [filter]. unfold push_at.
+    assert (key e < length acc) by (apply Hk; cbn; auto).
+    destruct (Nat.eqb_spec (key e) i) as [<-|Hne].
+    + rewrite nth_upd by auto. rewrite Nat.eqb_refl. cbn [map]. rewrite <- app_assoc. reflexivity.
+    + rewrite nth_upd_other by auto. reflexivity.
+Qed.
+
+Lemma count_fold : forall es acc, (forall e : nat * nat, In e es -> snd e < length acc) ->
+  length (fold_left (fun a (e : nat * nat) => upd a (snd e) (S (nth (snd e) a 0))) es acc) = length acc /\
+  forall i, nth i (fold_left (fun a (e : nat * nat) => upd a (snd e) (S (nth (snd e) a 0))) es acc) 0 =
+            nth i acc 0 + length (filter (fun e : nat * nat => snd e =? i) es).
+Proof.
+  induction es as [|e es IH]; intros acc Hk; cbn [fold_left].
+  - split; [reflexivity|intros i; cbn; lia].
+  - destruct (IH (upd acc (snd e) (S (nth (snd e) acc 0)))) as [I1 I2].
+    { intros e' He'. rewrite upd_length. apply Hk; cbn; auto. }
+    rewrite upd_length in I1. split; auto. intros i. rewrite I2. cbn [filter].
+    assert (snd e < length acc) by (apply Hk; cbn; auto).
+    destruct (Nat.eqb_spec (snd e) i) as [<-|Hne].
+    + rewrite nth_upd by auto. rewrite Nat.eqb_refl. cbn [length]. lia.
+    + rewrite nth_upd_other by auto. reflexivity.
+Qed.
+
+Lemma NoDup_map_in : forall A B (f : A -> B) l, NoDup l ->
+  (forall a b, In a l -> In b l -> f a = f b -> a = b) -> NoDup (map f l).
+Proof.
+  induction l as [|a l IH]; intros Hnd Hinj; cbn; [constructor|].
+  inversion Hnd; subst. constructor.
+  - intros H. apply in_map_iff in H as [b [Hb1 Hb2]].
+    assert (b = a) by (apply Hinj; cbn; auto). subst. auto.
+  - apply IH; auto. intros x y Hx Hy. apply Hinj; cbn; auto.
+Qed.
+
+Lemma index_of_lt : forall x l, In x l -> index_of x l < length l.
+Proof.
+  induction l as [|a l IH]; intros H; [destruct H|]. cbn.
+  destruct (Nat.eqb_spec x a); [lia|]. destruct H; [congruence|]. apply IH in H. lia.
+Qed.
+
+Lemma index_of_prefix : forall x A B, In x A -> index_of x (A ++ B) < length A.
+Proof.
+  induction A as [|a A IH]; intros B H; [destruct H|]. cbn.
+  destruct (Nat.eqb_spec x a); [lia|]. destruct H; [congruence|]. apply (IH B) in H. lia.
+Qed.
+
+Definition topo_ok (p : poset) : Prop :=
+  NoDup (ptopo p) /\ (forall v, In v (ptopo p) <-> v < pn p) /\
+  forall c q, In q (parents p c) -> index_of c (ptopo p) < index_of q (ptopo p).
+
+Theorem from_edges_wf : forall n edges p,
+  (forall c q, In (c, q) edges -> c < n /\ q < n) ->
+  from_edges n edges = inl p ->
+  (exists rk, wf_poset p rk) /\ topo_ok p /\ pn p = n /\ length (ppar p) = n /\ length (pch p) = n /\
+  (forall c q, In q (parents p c) <-> In (c, q) edges).
+Proof.
+  intros n edges p Hrange H. unfold from_edges in H.
+  set (es := dedup_edges edges []) in *.
+  destruct (dedup_spec edges []) as [Hes_nd Hes_in]. fold es in Hes_nd, Hes_in.
+  assert (Hes : forall e, In e es <-> In e edges) by (intros e; rewrite Hes_in; cbn; tauto).
+  assert (Hes_lt : forall e, In e es -> fst e < n /\ snd e < n).
+  { intros [c q] He. apply Hes in He. apply Hrange in He. auto. }
+  destruct (push_fold fst snd es (repeat [] n)) as [Pl Pn]; [intros e He; rewrite repeat_length; apply Hes_lt; auto|].
+  destruct (push_fold snd fst es (repeat [] n)) as [Cl Cn]; [intros e He; rewrite repeat_length; apply Hes_lt; auto|].
+  destruct (count_fold es (repeat 0 n)) as [Il In_]; [intros e He; rewrite repeat_length; apply Hes_lt; auto|].
+  set (par := fold_left (fun a e => push_at a (fst e) (snd e)) es (repeat [] n)) in *.
+  set (ch := fold_left (fun a e => push_at a (snd e) (fst e)) es (repeat [] n)) in *.
+  set (indeg := fold_left (fun a (e : nat * nat) => upd a (snd e) (S (nth (snd e) a 0))) es (repeat 0 n)) in *.
+  rewrite repeat_length in Pl, Cl, Il.
+  assert (Ppar : forall c, nth c par [] = map snd (filter (fun e => fst e =? c) es)).
+  { intros c. rewrite Pn. destruct (Nat.ltb_spec c n); [rewrite nth_repeat|rewrite nth_overflow by (rewrite repeat_length; lia)]; reflexivity. }
+  assert (Pch : forall v, nth v ch [] = map fst (filter (fun e => snd e =? v) es)).
+  { intros c. rewrite Cn. destruct (Nat.ltb_spec c n); [rewrite nth_repeat|rewrite nth_overflow by (rewrite repeat_length; lia)]; reflexivity. }
+  assert (Hpar_in : forall c q, In q (nth c par []) <-> In (c, q) es).
+  { intros c q. rewrite Ppar, in_map_iff. split.
+    - intros [[a b] [E1 E2]]. apply filter_In in E2 as [E2 E3]. cbn [fst snd] in E1, E3. apply Nat.eqb_eq in E3. rewrite <- E1, <- E3. auto.
+    - intros Hin. exists (c, q). split; auto. apply filter_In. split; auto. cbn. apply Nat.eqb_refl. }
+  assert (Hch_in : forall v c, In c (nth v ch []) <-> In (c, v) es).
+  { intros v c. rewrite Pch, in_map_iff. split.
+    - intros [[a b] [E1 E2]]. apply filter_In in E2 as [E2 E3]. cbn [fst snd] in E1, E3. apply Nat.eqb_eq in E3. rewrite <- E1, <- E3. auto.
+    - intros Hin. exists (c, v). split; auto. apply filter_In. split; auto. cbn. apply Nat.eqb_refl. }
+  assert (Hpar_nd : forall c, NoDup (nth c par [])).
+  { intros c. rewrite Ppar. apply NoDup_map_in; [apply NoDup_filter; auto|].
+    intros [a b] [a' b'] Ha Hb E. apply filter_In in Ha as [_ Ha]. apply filter_In in Hb as [_ Hb].
+    cbn [fst snd] in Ha, Hb, E. apply Nat.eqb_eq in Ha, Hb. congruence. }
+  assert (Hch_nd : forall v, NoDup (nth v ch [])).
+  { intros c. rewrite Pch. apply NoDup_map_in; [apply NoDup_filter; auto|].
+    intros [a b] [a' b'] Ha Hb E. apply filter_In in Ha as [_ Ha]. apply filter_In in Hb as [_ Hb].
+    cbn [fst snd] in Ha, Hb, E. apply Nat.eqb_eq in Ha, Hb. congruence. }
+  assert (Hpar_lt : forall c q, In q (nth c par []) -> q < n).
+  { intros c q Hq. apply Hpar_in in Hq. apply Hes_lt in Hq. tauto. }
+  (* initial Kahn invariant *)
+  assert (Hdeg : forall q, q < n -> nth q indeg 0 = length (pending n par q [])).
+  { intros q Hq. rewrite In_, nth_repeat. cbn [plus].
+    rewrite <- (map_length fst (filter (fun e : nat * nat => snd e =? q) es)). rewrite <- Pch.
+    apply Nat.le_antisymm; apply NoDup_incl_length; auto.
+    - intros c Hc. apply (in_pending n par Hpar_nd Hpar_lt). apply Hch_in in Hc. split; [apply Hes_lt in Hc; tauto|].
+      split; [apply Hpar_in; auto|cbn; tauto].
+    - apply NoDup_filter, seq_NoDup.
+    - intros c Hc. apply (in_pending n par Hpar_nd Hpar_lt) in Hc as [_ [Hc _]]. apply Hch_in, Hpar_in; auto. }
+  set (q0 := filter (fun i => nth i indeg 0 =? 0) (seq 0 n)) in *.
+  assert (K0 : kinv n par indeg q0 []).
+  { constructor; auto.
+    - intros q Hq. apply filter_In in Hq as [Hq1 Hq2]. apply in_seq in Hq1. apply Nat.eqb_eq in Hq2.
+      split; [lia|]. split; auto. apply length_zero_iff_nil. rewrite <- Hdeg by lia. auto.
+    - apply NoDup_filter, seq_NoDup.
+    - intros l1 q l2 E. destruct l1; discriminate.
+    - constructor.
+    - intros q []. }
+  destruct (kahn_inv n par Hpar_nd Hpar_lt n indeg q0 [] K0) as [O [EO [HG [HN HL]]]].
+  rewrite EO in H. rewrite rev_length in H.
+  destruct (Nat.eqb_spec (length O) n) as [Hlen|]; [|discriminate].
+  inversion H; subst p; clear H. cbn [pn ppar pch ptopo parents children].
+  (* every node is in the order (pigeonhole) *)
+  assert (Hall : forall v, v < n -> In v O).
+  { intros v Hv. apply (NoDup_length_incl HN (l' := seq 0 n)).
+    - rewrite seq_length. lia.
+    - intros x Hx. apply in_seq. apply HL in Hx. lia.
+    - apply in_seq. lia. }
+  assert (Hidx : forall c q, In q (nth c par []) -> index_of c (rev O) < index_of q (rev O) /\ index_of q (rev O) < n).
+  { intros c q Hq. pose proof (Hpar_in c q) as Hcq. apply Hcq in Hq as He. apply Hes_lt in He as [Hc Hq']. cbn in Hc, Hq'.
+    destruct (in_split _ _ (Hall q Hq')) as [l1 [l2 E]].
+    assert (Hc2 : In c l2) by (eapply HG; eauto).
+    assert (Hq2 : ~ In q l2).
+    { rewrite E in HN. apply NoDup_remove_2 in HN. intros Hx. apply HN. apply in_or_app; auto. }
+    rewrite E, rev_app_distr. cbn [rev]. rewrite <- app_assoc. cbn [app].
+    rewrite idx_app_head by (rewrite <- in_rev; auto).
+    split.
+    - apply index_of_prefix. rewrite <- in_rev. auto.
+    - rewrite rev_length. rewrite <- Hlen, E, app_length. cbn. lia. }
+  split; [|split; [|split; [|split; [|split]]]]; auto.
+  - exists (fun v => index_of v (rev O)). constructor; cbn [pn ppar pch ptopo parents children].
+    + intros c q Hq. unfold parents in Hq. cbn in Hq. apply Hidx; auto.
+    + intros c v. unfold children, parents. cbn. rewrite Hch_in, Hpar_in. tauto.
+    + intros v. unfold children. cbn. apply Hch_nd.
+    + intros c v Hv. unfold parents in Hv. cbn in Hv. apply Hpar_in in Hv. apply Hes_lt in Hv. auto.
+  - unfold topo_ok. cbn. split; [apply NoDup_rev; auto|]. split.
+    + intros v. rewrite <- in_rev. split; auto.
+    + intros c q Hq. unfold parents in Hq. cbn in Hq. apply Hidx; auto.
+  - intros c q. unfold parents. cbn. rewrite Hpar_in. apply Hes.
+Qed.
+
+Lemma is_tree_forest : forall p, is_tree p = true -> forest p.
+Proof.
+  intros p H c. unfold is_tree in H. rewrite forallb_forall in H. unfold parents.
+  destruct (Nat.ltb_spec c (length (ppar p))) as [Hc|Hc].
+  - apply Nat.leb_le. apply H. apply nth_In. auto.
+  - rewrite nth_overflow by lia. cbn. lia.
 Qed.
